@@ -31,6 +31,7 @@ ALPHA = {
     "T3": [(a, b, c, True) for a in V3 for b in V3 for c in V3],
 }
 QUICK_ALPHA = ("V3x2F", "B3")
+STATE_CAP = 400000
 COMPARATORS = {"pareto": None, "eps01": [0.1, 0.1], "eps05": 0.5}
 
 
@@ -149,11 +150,16 @@ def bfs(cname, aname, col):
             viol, new = check_add(cname, st, x)
             for key, msg in viol:
                 col.violation(key, "add", msg, {"comparator": cname, "state": st, "x": x})
+            if viol:
+                continue        # do not explore beyond a violating transition (a broken archive may grow without bound)
             if new is not None and new not in seen:
                 seen.add(new)
                 depth[new] = depth[st] + 1
                 frontier.append(new)
-        if col.full:
+        if col.full or len(seen) > STATE_CAP:
+            if len(seen) > STATE_CAP:
+                col.count("caps_hit")
+                col.notes.append("state cap %d hit for %s/%s: fixed point NOT reached" % (STATE_CAP, cname, aname))
             break
     return seen, transitions, max(depth.values())
 
@@ -224,7 +230,7 @@ def run(tier, seed):
                 for k in range(2, n + 1):
                     shards.append(("hist", cname, aname, k, first))
     col = run_shards(_shard, shards)
-    extra = {"exhaustive": True, "fixed_point": not col.full,
+    extra = {"exhaustive": col.counters.get("caps_hit", 0) == 0, "fixed_point": not col.full and col.counters.get("caps_hit", 0) == 0,
              "states": col.counters.get("states", 0), "transitions": col.counters.get("transitions", 0),
              "traces_validated_against_impl": col.counters.get("traces_validated_against_impl", 0)}
     return col, extra
